@@ -142,7 +142,7 @@ theorem inv_applyCorr {cfg : Cfg} (hclr : cfg.applyClearsShadows = true) {O : Or
 theorem cfg_flags {cfg : Cfg} (hs : cfg.sound = true) :
     cfg.propHitRefreshesTraj = true ∧ cfg.corrKeyHasState = true ∧ cfg.corrApplyOnHit = true ∧
     cfg.corrCfgSetterResets = true ∧ cfg.applyClearsShadows = true ∧ cfg.manKeyHasOrbitState = true ∧
-    cfg.manHitRefreshesResult = true ∧ cfg.manResultChecksOrbit = true := by
+    cfg.manHitRefreshesResult = true ∧ cfg.manResultChecksOrbit = true ∧ cfg.saveOverridesStale = true := by
   simpa [Cfg.sound, and_assoc] using hs
 
 theorem lookup_cons_ne {κ ν : Type} [DecidableEq κ] {k k' : κ} (v : ν) (c : List (κ × ν)) (h : k' ≠ k) :
@@ -153,8 +153,8 @@ theorem lookup_cons_self {κ ν : Type} [DecidableEq κ] (k : κ) (v : ν) (c : 
 
 theorem step_sim {cfg : Cfg} (hs : cfg.sound = true) {O : Oracle} {s : OState} {l : OLog} (h : Inv O s l)
     (op : OOp) : Inv O (stepO cfg O s op).1 (stepL O l op).1 ∧ (stepO cfg O s op).2 = (stepL O l op).2 := by
-  obtain ⟨f1, f2, f3, f4, f5, f6, f7, f8⟩ := cfg_flags hs
-  rcases s with ⟨sx, sT, sc, straj, sstab, sd, scc, smres, smc⟩
+  obtain ⟨f1, f2, f3, f4, f5, f6, f7, f8, f9⟩ := cfg_flags hs
+  rcases s with ⟨sx, sT, sc, straj, sstab, sd, scc, smres, smc, sdT, sdTr, sdSt⟩
   rcases l with ⟨lx, lT, lc, llast, lmlast⟩
   have hx := h.hx; have hT := h.hT; have hc := h.hc
   simp only at hx hT hc
@@ -348,7 +348,7 @@ theorem step_sim {cfg : Cfg} (hs : cfg.sound = true) {O : Oracle} {s : OState} {
           · rw [if_pos (by simp [hcnd]), if_neg hcnd]; exact ⟨h, rfl⟩
   | saveLoad =>
       refine ⟨?_, rfl⟩
-      simp only [stepO, stepL]
+      simp only [stepO, stepL, savedAttr, f9, if_true]
       exact { hx := rfl, hT := rfl, hc := rfl, htraj := h.htraj, hstab := h.hstab
               hd := by intro k v hv; simp at hv
               hds := by intro v hv; simp at hv
@@ -386,7 +386,7 @@ theorem cinv_setDegree {cfg : CCfg} (hclr : cfg.setterClearsHamsys = true) {O : 
 
 theorem cinv_pipeline {O : COracle} {s : CState} {d : Nat} (h : CInv O s d) :
     CInv O (pipelineC O s).1 d ∧ (pipelineC O s).2 = O.pipe d := by
-  rcases s with ⟨sd, sh, sc⟩
+  rcases s with ⟨sd, sh, sc, sdh⟩
   have hd := h.hd
   simp only at hd
   subst hd
@@ -408,9 +408,9 @@ theorem cinv_pipeline {O : COracle} {s : CState} {d : Nat} (h : CInv O s d) :
 
 theorem cstep_sim {cfg : CCfg} (hs : cfg.sound = true) {O : COracle} {s : CState} {d : Nat} (h : CInv O s d)
     (op : COp) : CInv O (stepC cfg O s op).1 (stepCL cfg O d op).1 ∧ (stepC cfg O s op).2 = (stepCL cfg O d op).2 := by
-  have hf : cfg.hamDeg ≠ .onMiss ∧ cfg.setterClearsHamsys = true := by
+  have hf : (cfg.hamDeg ≠ .onMiss ∧ cfg.setterClearsHamsys = true) ∧ cfg.saveOverridesStale = true := by
     simpa [CCfg.sound] using hs
-  obtain ⟨hne, hclr⟩ := hf
+  obtain ⟨⟨hne, hclr⟩, hsv⟩ := hf
   cases op with
   | setDegree n => exact ⟨cinv_setDegree hclr h n, rfl⟩
   | setDegreeBad => exact ⟨h, rfl⟩
@@ -463,7 +463,7 @@ theorem cstep_sim {cfg : CCfg} (hs : cfg.sound = true) {O : COracle} {s : CState
                   hh := by intro v hv; simp only [Option.some.injEq] at hv; rw [← hv, hp2]
                   hc := hp1.hc }
   | map e =>
-      rcases s with ⟨sd, sh, sc⟩
+      rcases s with ⟨sd, sh, sc, sdh⟩
       have hd := h.hd
       simp only at hd
       subst hd
@@ -484,9 +484,9 @@ theorem cstep_sim {cfg : CCfg} (hs : cfg.sound = true) {O : COracle} {s : CState
                     · exact h.hc k v he }
   | saveLoad =>
       refine ⟨?_, rfl⟩
-      simp only [stepC, stepCL]
+      simp only [stepC, stepCL, hsv, if_true]
       exact { hd := h.hd
-              hh := by intro v hv; simp at hv
+              hh := h.hh
               hc := by intro k v hv; simp at hv }
 
 end HitenModel.C20
